@@ -650,6 +650,124 @@ def run_agreement(case):
     return out
 
 
+# ------------------------------------------------------------------ object reuse / call history (round 3)
+
+def reuse_targets(bct):
+    """name -> (matrix kind or None, fn(A, ci) on the shared argument objects).  Results are reduced to the label-free part."""
+    T = {}
+    for deg, kind in (('undirected', 'wu'), ('in', 'wd'), ('out', 'wd')):
+        T['participation_coef/' + deg] = (kind, lambda A, ci, d=deg: bct.participation_coef(A, ci, d))
+    T['participation_coef_sign'] = ('su', lambda A, ci: bct.participation_coef_sign(A, ci))
+    for fl in (0, 1, 2, 3):
+        T['module_degree_zscore/%d' % fl] = ('wd' if fl else 'wu', lambda A, ci, f=fl: bct.module_degree_zscore(A, ci, f))
+    T['diversity_coef_sign'] = ('su', lambda A, ci: bct.diversity_coef_sign(A, ci))
+    T['gateway_coef_sign'] = ('su', lambda A, ci: bct.gateway_coef_sign(A, ci))
+    T['modularity_und'] = ('wu', lambda A, ci: bct.modularity_und(A, 1, ci)[1])
+    T['modularity_dir'] = ('wd', lambda A, ci: bct.modularity_dir(A, 1, ci)[1])
+    for qt in ('sta', 'gja'):
+        T['modularity_und_sign/' + qt] = ('su', lambda A, ci, q=qt: bct.modularity_und_sign(A, ci, q)[1])
+    T['ci2ls'] = (None, lambda A, ci: bct.ci2ls(ci))
+    T['ls2ci(ci2ls)'] = (None, lambda A, ci: bct.ls2ci(bct.ci2ls(ci)))
+    # pairs of routines sharing the argument objects: g runs between / before f on the same arrays
+    T['partition_distance(ci, ci2) after ci2ls(ci)'] = (None, None)          # handled below (two label vectors)
+    T['partition_distance'] = (None, None)
+    T['partition_distance(ci2, ci) after partition_distance(ci, ci2)'] = (None, None)
+    T['participation_coef after module_degree_zscore'] = ('wu', lambda A, ci: (bct.module_degree_zscore(A, ci), bct.participation_coef(A, ci))[1])
+    T['modularity_und_sign after participation_coef_sign'] = ('su', lambda A, ci: (bct.participation_coef_sign(A, ci), bct.modularity_und_sign(A, ci)[1])[1])
+    return T
+
+
+def run_reuse(case):
+    """case: n, mats, labels (list), labels2, target, mutation, seed.  common.reuse_probe: call, mutate the SAME objects in place,
+    call again, compare with the call on fresh copies.  Mutations: move one node to another module, swap two labels, edit W."""
+    bct = import_bct()
+    rs = np.random.RandomState(case['seed'])
+    n = case['n']; name = case['target']; mut = case['mutation']
+    out = {'viol': [], 'lean': [], 'evals': 0, 'keys': [], 'dist': {}, 'sample': None}
+    T = reuse_targets(bct)
+    kind, fn = T[name]
+    lab = np.array(case['labels'], dtype=np.int64); lab2 = np.array(case['labels2'], dtype=np.int64)
+    A = fmat(case['mats'][kind]) if kind else np.zeros((n, n))
+    und = kind in ('wu', 'su', 'bu')
+
+    def mutate_labels(v):
+        vals = sorted(set(v.tolist()))
+        if mut == 'move-node' or mut == 'edit-W':      # label-only targets: 'edit-W' degenerates to moving a node
+            i = int(rs.randint(n)); others = [x for x in vals if x != v[i]] or [max(vals) + 1]
+            v[i] = others[int(rs.randint(len(others)))]
+        elif mut == 'swap-labels' and len(vals) >= 2:
+            a, b = (int(x) for x in rs.choice(vals, 2, replace=False))
+            ia, ib = v == a, v == b
+            v[ia] = b; v[ib] = a
+            j = int(rs.randint(n)); v[j] = a            # and one node changes module, so that the partition itself changes too
+        elif mut == 'make-equal':
+            v[:] = lab2
+
+    def mutate(args):
+        if mut == 'edit-W' and kind:
+            i, j = (int(x) for x in rs.choice(n, 2, replace=False)) if n >= 2 else (0, 0)
+            w = float(rs.randint(1, 6)) * (-1.0 if kind == 'su' and rs.rand() < .5 else 1.0)
+            args[0][i, j] = w
+            if und:
+                args[0][j, i] = w
+        else:
+            mutate_labels(args[-2] if name.startswith('partition_distance') else args[-1])
+    if name.startswith('partition_distance'):
+        f = ((lambda cx, cy: (bct.ci2ls(cx), bct.partition_distance(cx, cy))[1]) if 'after ci2ls' in name else
+             (lambda cx, cy: (bct.partition_distance(cx, cy), bct.partition_distance(cy, cx))[1]) if 'after partition' in name else
+             (lambda cx, cy: bct.partition_distance(cx, cy)))
+        args = [lab, lab2]
+    else:
+        f = fn; args = [A, lab]
+    before = [a.copy() for a in args]
+    d = reuse_probe(f, args, mutate, t=5)
+    out['evals'] += 3
+    out['dist']['reuse_probe:' + name.split('/')[0].split(' ')[0]] = 1
+    if d is not None:
+        out['viol'].append((name.split('/')[0].split('(')[0].split(' ')[0], 'result-depends-on-history',
+                            {'n': n, 'target': name, 'mutation': mut, 'first_call_args': [b.tolist() for b in before],
+                             'second_call_args': [a.tolist() for a in args], 'probe': d}, {'mutation': mut}))
+    if any(not np.array_equal(a, b) for a, b in zip(args, before)):
+        out['keys'].append(digest(['reuse', name, mut, case['labels'], case['seed']]))
+    return out
+
+
+def run_sequence(case):
+    """f, then other routines / other options on the SAME array objects (equal n), then f again: the two results of f must be
+    identical and the shared arguments untouched (state carried between calls: caches keyed by size, warn-once flags, templates)."""
+    bct = import_bct()
+    n = case['n']
+    out = {'viol': [], 'lean': [], 'evals': 0, 'keys': [], 'dist': {}, 'sample': None}
+    T = {k: v for k, v in reuse_targets(bct).items() if v[1] is not None}
+    rs = np.random.RandomState(case['seed'])
+    names = sorted(T)
+    lab = np.array(case['labels'], dtype=np.int64); lab2 = np.array(case['labels2'], dtype=np.int64)
+    mats = {k: fmat(W) for k, W in case['mats'].items()}
+    order = [names[i] for i in rs.permutation(len(names))][:6]
+    first = order[0]
+    def run(nm, ci):
+        kind, fn = T[nm]
+        return call(fn, mats[kind] if kind else np.zeros((n, n)), ci, t=5, retry=10)
+    snap = {k: v.copy() for k, v in mats.items()}
+    r1 = run(first, lab); p1 = call(bct.partition_distance, lab, lab2, t=5, retry=10)
+    for nm in order[1:]:
+        run(nm, lab2 if rs.rand() < .5 else lab); out['evals'] += 1
+    r2 = run(first, lab); p2 = call(bct.partition_distance, lab, lab2, t=5, retry=10)
+    out['evals'] += 4
+    out['dist']['sequence_cases'] = 1
+    for (a, b, who) in ((r1, r2, first), (p1, p2, 'partition_distance')):
+        if 'timeout' in (a[0], b[0]):
+            continue
+        if a[0] != b[0] or (a[0] == 'ok' and not same_result(a[1], b[1], 0.0)):
+            out['viol'].append((who.split('/')[0].split('(')[0].split(' ')[0], 'result-depends-on-history',
+                                {'n': n, 'sequence': order + [first], 'labels': case['labels'], 'labels2': case['labels2'],
+                                 'first': str(a[1])[:300], 'again': str(b[1])[:300]}, {'mutation': 'sequence'}))
+    if any(not np.array_equal(mats[k], snap[k]) for k in mats) or lab.tolist() != case['labels']:
+        out['viol'].append((first.split('/')[0], 'labels-modified', {'n': n, 'sequence': order}, {}))
+    out['keys'].append(digest(['seq', order, case['labels']]))
+    return out
+
+
 # ------------------------------------------------------------------ main
 
 def compare_model(ck, items, outs):
@@ -728,6 +846,7 @@ def parse_W_from_line(line):
 aux_W = [parse_W_from_line]
 VKW = {v[0]: v[3] for v in variants()}
 
+PROBE_NOTE = 'object-reuse probes (common.reuse_probe) and f-g-f sequences on shared argument objects'
 ROUTINES = ['participation_coef', 'participation_coef_sign', 'module_degree_zscore', 'diversity_coef_sign', 'gateway_coef_sign',
             'modularity_und', 'modularity_dir', 'modularity_und_sign', 'partition_distance', 'ci2ls', 'ls2ci', 'agreement']
 
@@ -756,10 +875,14 @@ def main():
     quick = ck.tier == 'quick'
     # ---- cases
     cons, pds, lists, agrs = [], [], [], []
+    if ck.replay and 'case' not in json.load(open(ck.replay)):
+        ck.replay = None          # a `no_longer_checks` (proof / correspondence break) replay names no input: re-run everything
     if ck.replay:
         rp = json.load(open(ck.replay))
         d = rp['case']
-        if rp['function'] == 'partition_distance':
+        if rp.get('predicate') == 'result-depends-on-history':
+            pass                  # object-reuse probe: rebuilt below
+        elif rp['function'] == 'partition_distance':
             pds.append({'n': d['n'], 'x': tuple(r - 1 for r in first_occ(d['cx'])), 'y': tuple(r - 1 for r in first_occ(d['cy'])),
                         'rx': relabellings([r - 1 for r in first_occ(d['cx'])], rs), 'ry': relabellings([r - 1 for r in first_occ(d['cy'])], rs), 'model': True})
         elif ('W' in d or 'W_sparse' in d) and 'labels' in d:
@@ -828,9 +951,37 @@ def main():
             agrs.append({'n': n, 'cols': [[v + 1 for v in c], [v + 1 for v in c2]],
                          'cols2': [large_relabellings(c, rs)[2][1], large_relabellings(c2, rs)[1][1]]})
         ck.count('large_partition_shapes', len(shapes))
+    # ---- round 3: object reuse / call history probes
+    reuse, seqs = [], []
+    if not ck.replay:
+        tnames = sorted(reuse_targets(import_bct()))
+        nprobe = 90 if quick else 700
+        for q in range(nprobe):
+            n = int(rs.randint(4, 9)); parts_n = None
+            c1 = [int(x) for x in rs.randint(1, int(rs.randint(2, n)) + 1, size=n)]
+            c2 = [int(x) for x in rs.randint(1, int(rs.randint(2, n)) + 1, size=n)]
+            nm = tnames[q % len(tnames)]
+            muts = ['move-node', 'swap-labels', 'edit-W'] + (['make-equal'] if nm.startswith('partition_distance') else [])
+            reuse.append({'n': n, 'mats': gen_mats(rs, n), 'labels': c1, 'labels2': c2, 'target': nm,
+                          'mutation': muts[(q // len(tnames)) % len(muts)], 'seed': int(rs.randint(2 ** 31))})
+        for q in range(12 if quick else 120):
+            n = int(rs.randint(4, 9))
+            seqs.append({'n': n, 'mats': gen_mats(rs, n), 'labels': [int(x) for x in rs.randint(1, 4, size=n)],
+                         'labels2': [int(x) for x in rs.randint(1, 4, size=n)], 'seed': int(rs.randint(2 ** 31))})
+    elif json.load(open(ck.replay)).get('predicate') == 'result-depends-on-history':
+        d = json.load(open(ck.replay))['case']
+        if 'target' in d:
+            a = d['first_call_args']
+            n = d['n']; mats = gen_mats(rs, n)
+            for sd in range(40):
+                reuse.append({'n': n, 'mats': mats, 'labels': a[-2] if d['target'].startswith('partition_distance') else a[-1],
+                              'labels2': a[-1], 'target': d['target'], 'mutation': d['mutation'], 'seed': sd})
+    ck.count('reuse_probes', len(reuse)); ck.count('sequence_cases', len(seqs))
     ck.count('consumer_cases', len(cons)); ck.count('partition_distance_pairs', len(pds)); ck.count('list_cases', len(lists)); ck.count('agreement_cases', len(agrs))
     results = []
-    for fn, cs in ((run_consumers, cons), (run_pd, pds), (run_lists, lists), (run_agreement, agrs)):
+    # workers interleave routines, sizes and options: every case list is shuffled (hidden state carried between calls must show)
+    for fn, cs in ((run_consumers, cons), (run_pd, pds), (run_lists, lists), (run_agreement, agrs), (run_reuse, reuse), (run_sequence, seqs)):
+        cs = [cs[i] for i in rs.permutation(len(cs))]
         results += pmap(fn, cs)
     items = []
     for r in results:
